@@ -870,3 +870,119 @@ func leavesPath(n ast.Node) bool {
 	}
 	return false
 }
+
+// ruleSuccessorKeepsIncrementedByte: byte-string successor helpers
+// (func([]byte) []byte that increment an element x[i]).  When such a helper's
+// result is used as the END of a range whose START is the helper's own
+// argument (a prefix scan: RangeIterator(k, f(k)), AutomatonIterator(a, p, f(p)))
+// the successor must drop the bytes that overflowed: every non-nil return is
+// x[:i+1].  Returning the whole buffer ("a\xff" -> "b\x00") puts keys that do
+// not carry the prefix ("b") inside the range.  Helpers used in other roles
+// (numeric enumeration, inclusive range ends) are only listed.
+func ruleSuccessorKeepsIncrementedByte(r *Report, rule string, pkgFilter func(rel string) bool, floor int) {
+	p := r.P
+	n := 0
+	type helper struct {
+		fi       *FuncInfo
+		buf, idx types.Object
+	}
+	var helpers []helper
+	for _, fi := range p.flist {
+		sig := fi.Obj.Type().(*types.Signature)
+		if sig.Params().Len() != 1 || sig.Results().Len() != 1 || sig.Params().At(0).Type().String() != "[]byte" || sig.Results().At(0).Type().String() != "[]byte" || fi.Decl.Body == nil {
+			continue
+		}
+		if !pkgFilter(relPkg(fi.Pkg.PkgPath)) {
+			continue
+		}
+		info := fi.Pkg.TypesInfo
+		var buf, idx types.Object
+		ast.Inspect(fi.Decl.Body, func(x ast.Node) bool {
+			switch s := x.(type) {
+			case *ast.IncDecStmt:
+				if ix, ok := s.X.(*ast.IndexExpr); ok && s.Tok == token.INC {
+					buf, idx = objOf(info, ix.X), objOf(info, ix.Index)
+				}
+			case *ast.AssignStmt:
+				if len(s.Lhs) == 1 && len(s.Rhs) == 1 {
+					if ix, ok := s.Lhs[0].(*ast.IndexExpr); ok {
+						if be, ok := ast.Unparen(s.Rhs[0]).(*ast.BinaryExpr); ok && be.Op == token.ADD && exprStr(be.X) == exprStr(ix) {
+							if k, isC := intConst(info, be.Y); isC && k == 1 {
+								buf, idx = objOf(info, ix.X), objOf(info, ix.Index)
+							}
+						}
+					}
+				}
+			}
+			return true
+		})
+		if buf != nil && idx != nil {
+			helpers = append(helpers, helper{fi, buf, idx})
+		}
+	}
+	for _, h := range helpers {
+		// role: is some result used as the end of a range that starts at the argument?
+		prefixRole := ""
+		for _, caller := range p.flist {
+			if caller.Decl.Body == nil {
+				continue
+			}
+			cinfo := caller.Pkg.TypesInfo
+			ast.Inspect(caller.Decl.Body, func(x ast.Node) bool {
+				as, ok := x.(*ast.AssignStmt)
+				if !ok || len(as.Lhs) != 1 || len(as.Rhs) != 1 {
+					return true
+				}
+				c, ok := as.Rhs[0].(*ast.CallExpr)
+				if !ok || callee(cinfo, c) != h.fi.Obj || len(c.Args) != 1 {
+					return true
+				}
+				res, arg := objOf(cinfo, as.Lhs[0]), objOf(cinfo, c.Args[0])
+				if res == nil || arg == nil || res == arg {
+					return true
+				}
+				for _, c2 := range callsDeep(caller.Decl.Body) {
+					hasRes, hasArg := false, false
+					for _, a := range c2.Args {
+						if objOf(cinfo, a) == res {
+							hasRes = true
+						}
+						if objOf(cinfo, a) == arg {
+							hasArg = true
+						}
+					}
+					if hasRes && hasArg {
+						prefixRole = caller.Name + ": " + exprShort(c2)
+					}
+				}
+				return true
+			})
+		}
+		info := h.fi.Pkg.TypesInfo
+		r.Fn(h.fi)
+		if prefixRole == "" {
+			n++
+			r.InfoOb(rule, h.fi.Name+"/not-a-prefix-end", h.fi.Decl.Pos(), "successor helper whose result is never paired with its own argument as (start, end) of one range call: no truncation required")
+			continue
+		}
+		for _, rs := range returnsOf(h.fi.Decl.Body) {
+			if len(rs.Results) != 1 || isNilIdent(info, rs.Results[0]) {
+				continue
+			}
+			n++
+			ok2 := false
+			if se, ok := ast.Unparen(rs.Results[0]).(*ast.SliceExpr); ok && objOf(info, se.X) == h.buf && se.High != nil && se.Low == nil {
+				if be, isB := ast.Unparen(se.High).(*ast.BinaryExpr); isB && be.Op == token.ADD && objOf(info, be.X) == h.idx {
+					if k, isC := intConst(info, be.Y); isC && k == 1 {
+						ok2 = true
+					}
+				}
+			}
+			r.Ob(rule, h.fi.Name+"/prefix-end-drops-overflowed-bytes", rs.Pos(), ok2,
+				"result is used as the exclusive end of a prefix range ("+prefixRole+"): it must be "+h.buf.Name()+"[:"+h.idx.Name()+"+1] — the incremented byte kept, the bytes after it (which overflowed to 0x00) dropped; `"+exprStr(rs.Results[0])+"` admits keys without the prefix")
+		}
+	}
+	if n < floor {
+		undecidedf("successor rule matched %d sites", n)
+	}
+}
